@@ -166,6 +166,42 @@ def sibling_wrap(ca, cb):
     return out, {'issued': WRAP + 1, 'skipped': 0, 'min_bytes': None}
 
 
+def handshake_ids(out):
+    """Ids as clients receive them: whatever a handshake request carries (a session cookie from an earlier or a forged
+    session, a sid-like query value), the session gets a fresh id from generate_id()."""
+    from vf.vworld import peer
+    n = 0
+    for impl in ('sync', 'async'):
+        for cookie in (None, 'io', {'name': 'sess', 'path': '/'}):
+            w = peer.make_world(impl, server_kwargs=dict(cookie=cookie))
+            try:
+                name = 'io' if not isinstance(cookie, dict) else cookie['name']
+                first = peer.sid_of(peer.open_polling(w))
+                peer.post(w, first, '1')
+                w.http('GET', peer.BASEQ + '&sid=' + first)      # lets the server reap the closed entry
+                w.run()
+                seen = [first]
+                for label, hdrs, extra in (('the cookie of an ended session', {'Cookie': '%s=%s' % (name, first)}, ''),
+                                           ('a forged cookie', {'Cookie': '%s=%s' % (name, 'A' * 20)}, ''),
+                                           ('two cookies', {'Cookie': 'other=1; %s=%s' % (name, 'B' * 20)}, ''),
+                                           ('a forged cookie and a stray query value', {'Cookie': '%s=%s' % (name, 'C' * 20)}, '&id=' + 'C' * 20)):
+                    r = w.http('GET', peer.BASEQ + extra, headers=hdrs)
+                    w.run()
+                    sid = peer.sid_of(r)
+                    n += 1
+                    presented = hdrs['Cookie'].split('=')[-1]
+                    if sid is None:
+                        continue
+                    if sid == presented or sid in seen or not ID_RE.match(sid):
+                        out.append(_viol('id_taken_from_request', impl, 'handshake', 0, n,
+                                         'server(cookie=%r): a handshake presenting %s was given the id %r (ids so far %r) - an id chosen by '
+                                         'the requester / issued before, not a fresh one' % (cookie, label, sid, seen)))
+                    seen.append(sid)
+            finally:
+                w.teardown()
+    return n
+
+
 def _work(chunk):
     res = []
     for (cls, kind, start, count, exact) in chunk:
@@ -286,6 +322,7 @@ def run(ctx):
     issued += two_instances(out)
     for cls in ('sync', 'async'):
         issued += wrap_alignment(cls, out)
+    issued += handshake_ids(out)
     for v in out:
         rep.add(v)
     if skipped:
@@ -295,7 +332,7 @@ def run(ctx):
         'distinct_nontrivial': windows,
         'rule': 'windows of consecutively issued ids from the real generate_id() of Server and AsyncServer, '
                 'with secrets.token_bytes / os.urandom replaced by adversarial sources {all-zero, all-ff, '
-                'base64-special pattern, period-2, counter-cancelling}; a wrap-alignment test (ids from counter 2^24-k reach the id of counter 0 after exactly k issues); sibling instances (server A issues an id, another instance issues 2^24-1 ids, the next id of A must differ); starts %s (quick: windows of 2^18 centred on '
+                'base64-special pattern, period-2, counter-cancelling}; a wrap-alignment test (ids from counter 2^24-k reach the id of counter 0 after exactly k issues); handshakes that present the cookie of an ended session / a forged cookie to servers configured with and without a session cookie (the id must be fresh); sibling instances (server A issues an id, another instance issues 2^24-1 ids, the next id of A must differ); starts %s (quick: windows of 2^18 centred on '
                 'them plus 512-id windows at every 8th value of each counter byte; thorough: full 2^24 windows). '
                 'distinct_nontrivial counts windows (source x start x server class).' % [hex(s) for s in starts],
         'samples': [{'server': 'sync', 'source': 'zero', 'start': '0xfe0000', 'count': 1 << 18},
